@@ -106,6 +106,9 @@ class Execution:
             cd = op.get("ContextDetails")
             if cd:
                 ev["rc"] = bool(cd.get("ReplayChildren"))
+            cb = op.get("CallbackDetails")
+            if cb:
+                ev["cbid"] = cb.get("CallbackId")
         else:
             ev["st"] = None
         ev["aseq"] = self.backend.seq
@@ -125,6 +128,18 @@ class Execution:
             rule = self._world_rule(op)
             if rule.get("when") == "immediate":
                 self._deliver(op, rule)
+
+    def _tick_api_rules(self) -> None:
+        """World rule when={'api_after_start': k}: deliver at the k-th checkpoint call after the START was applied."""
+        for oid in list(self.backend.awaiting_external()):
+            op = self.backend.ops[oid]
+            rule = self._world_rule(op)
+            w = rule.get("when")
+            if isinstance(w, dict) and "api_after_start" in w:
+                n = self._deliver_counts.get("api:" + oid, 0) + 1
+                self._deliver_counts["api:" + oid] = n
+                if n >= w["api_after_start"]:
+                    self._deliver(op, rule)
 
     def _deliver(self, op: dict, rule: dict) -> bool:
         ok = self.backend.complete_external(op["Id"], rule.get("status", "SUCCEEDED"), rule.get("result"), rule.get("error"))
@@ -156,7 +171,7 @@ class Execution:
                 if n < rule.get("n", 2):
                     deferred = True
                     continue
-            if when in ("between", "after_pendings", "immediate"):
+            if when in ("between", "after_pendings", "immediate") or isinstance(when, dict):
                 if self._deliver(op, rule):
                     changed = True
                     if self.world.get("external_one_at_a_time"):
@@ -355,6 +370,7 @@ class Execution:
                     return
                 seq0 = self.backend.seq
                 if pl["op"] == "checkpoint":
+                    self._tick_api_rules()
                     resp = self.backend.checkpoint(kw.get("CheckpointToken"), updates, resp_page=self.sc.get("pages", {}).get("resp_page"))
                 else:
                     resp = self.backend.get_state(kw.get("CheckpointToken"), kw.get("Marker"))
